@@ -55,6 +55,7 @@ let runners : (string * (z list -> z list)) list = [
   "cpqf", run_cpqf;
   "rw", run_rw;
   "simple", run_simple;
+  "strided", run_strided;
   "allot", run_allot;
   "msizes", run_msizes;
   "mseq", run_mseq;
